@@ -1,54 +1,121 @@
 /-
   C04 — Caches are transparent for every history of calls, failures and rebuilds.
-  The store half: a RAM/disk table only ever answers with a value that was put under an equal key (it is a
-  *lossy map*).  The engine half (the VM returns the cache-free denotation whenever every answer it receives is a
-  miss or sound) is the rely form of `vm_correct`, in progress (see DESIGN.md); until it lands that half rests on the
-  S-CACHE correspondence (the Lean VM run on graphs extracted from the real compiled functions) and the oracle.
+
+  **Store half.**  A RAM/disk table only ever answers with a value that was put under an equal key (`get_sound`,
+  `get_keeps`, `set_keeps`): it is a lossy map.
+
+  **Engine half (rely form of `vm_correct`).**  Let a family `F` of (pipeline graph, configuration) pairs share the
+  stores — one pipeline on all its inputs, rebuilt pipelines, pipeline variants on the same storage — and assume
+  that node hashes are faithful on the family (`Faithful`: two nodes whose hashes match one key by the store's key
+  equality have equal values; this is property C05, proved for silent-free graphs and structural key equality in
+  `CM.Props.C05`).  Then for **every history** of calls of members of the family on any inputs, with any schedule of
+  raising user functions, of `clear`s, LRU evictions, rebuilds and variant switches:
+
+    * `history_sound`: every entry of every store is the value of every node whose hash matches its key — in
+      particular a failed computation leaves nothing behind that a later call could read wrongly;
+    * `history_values`: whatever a call returns is the value of the cache-free denotation of that call;
+    * `cached_call`: every call stops.
+
+  Not covered: *which* exception a raising cached call propagates and the absence of internal errors for graphs
+  with cache edges (for cache-free graphs see `CM.Props.C01`); the serializer round trip (trusted).  Where the
+  hypothesis fails on the real code the property fails: F3 (Python `==` on keys of RAM tables) and F10 (CheckIds is
+  hash-transparent but decides whether a value exists) are the two known findings; `f10_in_model` shows F10 on the
+  model.
 -/
-import CM.Proofs.StoreLemmas
+import CM.Proofs.CacheCorrect
 namespace CM.C04
 open CM
 
-/-- every entry of the table was put there by a `set` with exactly that key object and value -/
-def FromSets (sets : List (NHash × Val)) (s : MemStore) : Prop := ∀ p ∈ s.table, ∃ q ∈ sets, q.2 = p.2 ∧ s.keyEq q.1 p.1 = true
-
-theorem keyEq_of_find (s : MemStore) (key : NHash) (p : NHash × Val) (h : s.find? key = some p) :
-    p ∈ s.table ∧ s.keyEq p.1 key = true := by
-  unfold MemStore.find? at h
-  exact ⟨List.mem_of_find?_eq_some h, by simpa using List.find?_some h⟩
-
-/-- **A hit returns a stored value.**  Whatever `get key` answers is the value of an entry of the table whose key
-equals `key` (Python `==` for the RAM table, equality of pickled bytes for the disk table). -/
+/-- **A hit returns a stored value.** -/
 theorem get_sound (s : MemStore) (key : NHash) (v : Val) (h : (s.get key).1 = some v) :
-    ∃ p ∈ s.table, p.2 = v ∧ s.keyEq p.1 key = true := by
-  unfold MemStore.get at h
-  cases hf : s.find? key with
-  | none => simp [hf] at h
-  | some p =>
-    obtain ⟨k, v'⟩ := p
-    obtain ⟨hm, hk⟩ := keyEq_of_find s key _ hf
-    simp only [hf] at h
-    cases hs : s.size <;> simp only [hs] at h <;> (injection h with h; subst h; exact ⟨_, hm, rfl, hk⟩)
+    ∃ p ∈ s.table, p.2 = v ∧ s.keyEq p.1 key = true := s.get_hit key v h
 
-/-- `get` never invents entries: the table after a `get` holds only entries it held before -/
-theorem get_keeps (s : MemStore) (key : NHash) : ∀ p ∈ (s.get key).2.table, p ∈ s.table := by
-  intro p hp
-  unfold MemStore.get at hp
-  cases hf : s.find? key with
-  | none => simpa [hf] using hp
-  | some q =>
-    obtain ⟨k, v⟩ := q
-    simp only [hf] at hp
-    cases hs : s.size with
-    | none => simpa [hs] using hp
-    | some n =>
-      simp only [hs, List.mem_cons] at hp
-      rcases hp with rfl | hp
-      · exact (keyEq_of_find s key _ hf).1
-      · exact (List.mem_filter.mp hp).1
+/-- `get` never invents entries -/
+theorem get_keeps (s : MemStore) (key : NHash) : ∀ p ∈ (s.get key).2.table, p ∈ s.table := (s.get_sub key).1
 
-/-- a failed computation stores nothing: `CacheEdge.evaluate` calls `set` only after the parent value arrived, so a
-run that raises before that point leaves every table as it was (the table is changed by `set` and `clear` only) -/
+/-- `set key v` adds nothing but `v` under a key equal to `key` (and may evict) -/
+theorem set_keeps (s : MemStore) (key : NHash) (v : Val) :
+    ∀ p ∈ (s.set key v).table, p ∈ s.table ∨ (p.2 = v ∧ s.keyEq p.1 key = true) := (s.set_sub key v).1
+
 theorem clear_empty (s : MemStore) : s.clear.table = [] := rfl
+
+/-- **One call** on sound stores: stops; a returned value is the cache-free denotation; the stores stay sound whether
+it returned or raised. -/
+theorem cached_call_transparent (F : Fam) (g : Graph) (ok : GraphOKC g) (env : String → Option Val) (w : World)
+    (hc : CallOK g env) (hF : F g (denCfgOf env w)) (hst : StoreSound F w) :
+    ∃ N o steps, (∀ fuel, N ≤ fuel → g.call env w fuel = some (o, steps)) ∧ CachedSpec F g (denCfgOf env w) o :=
+  cached_call F g ok env w hc hF hst
+
+/-- **Every history keeps the stores sound.** -/
+theorem stores_sound_along_history (F : Fam) (w : World) (h : Reach F w) : StoreSound F w := history_sound F w h
+
+/-- **Every history: a returned value is the cache-free value.** -/
+theorem transparent_along_history (F : Fam) (w : World) (h : Reach F w) (c : CallSpec) (fuel steps : Nat) (x : Item) (s : St)
+    (ok : GraphOKC c.g) (hc : CallOK c.g c.env) (hF : F c.g (denCfgOf c.env (prepare w c)))
+    (hrun : c.g.call c.env (prepare w c) fuel = some (.done x s, steps)) :
+    ∃ v, x = .val v ∧ vden c.g (denCfgOf c.env (prepare w c)) = .ok v :=
+  history_values F w h c fuel steps x s ok hc hF hrun
+
+/-! ### non-vacuity -/
+
+/-- `x -> f(x) -> cache` -/
+def demo : Graph :=
+  { nodes := [⟨"x", none, []⟩, ⟨"fx", some (.function "f" [] []), [0]⟩, ⟨"c", some (.cache 0), [1]⟩],
+    inputs := [0], output := 2 }
+
+def envOf (v : Val) : String → Option Val := fun s => if s = "x" then some v else none
+
+def world0 : World := { stores := [{ size := some 2, table := [], exact := true }] }
+
+/-- empty stores are sound for any family with faithful hashes -/
+theorem empty_sound (F : Fam) (hf : Faithful F true) : StoreSound F world0 := by
+  intro s st hs
+  cases s with
+  | zero =>
+    simp only [world0, List.getElem?_cons_zero, Option.some.injEq] at hs
+    subst hs
+    exact ⟨fun p hp => (by cases hp), hf⟩
+  | succ s => simp [world0] at hs
+
+/-- the value a finished call returned -/
+def valueOf : Option (Outcome × Nat) → Option Val
+  | some (.done (.val v) _, _) => some v
+  | _ => none
+
+/-- the world a finished call leaves, with the log emptied -/
+def worldOf : Option (Outcome × Nat) → World
+  | some (o, _) => { o.mem.world with log := [] }
+  | none => {}
+
+def callsOf : Option (Outcome × Nat) → Nat
+  | some (o, _) => o.mem.world.log.length
+  | none => 0
+
+/-- first call computes `f(3)` (one call of `f`) -/
+example : valueOf (demo.call (envOf (.int 3)) world0 100) = some (.app "f" [.int 3] [] []) ∧
+    callsOf (demo.call (envOf (.int 3)) world0 100) = 1 := ⟨rfl, rfl⟩
+
+/-- second call with the same input: served from the store, no call of `f`, same value -/
+example : valueOf (demo.call (envOf (.int 3)) (worldOf (demo.call (envOf (.int 3)) world0 100)) 100)
+      = some (.app "f" [.int 3] [] []) ∧
+    callsOf (demo.call (envOf (.int 3)) (worldOf (demo.call (envOf (.int 3)) world0 100)) 100) = 0 := ⟨rfl, rfl⟩
+
+/-! ### F10 on the model: CheckIds upstream of a shared cache -/
+
+/-- `key -> CheckIds(key, ids) -> image(key) -> cache`, with the id list a constant of the variant -/
+def variant (ids : List Val) : Graph :=
+  { nodes := [⟨"key", none, []⟩, ⟨"ids", some (.constant (.tup ids)), []⟩, ⟨"chk", some .checkIds, [0, 1]⟩,
+              ⟨"image", some (.function "image" [] []), [2]⟩, ⟨"c", some (.cache 0), [3]⟩],
+    inputs := [0], output := 4 }
+
+def envKey (v : Val) : String → Option Val := fun s => if s = "key" then some v else none
+
+/-- the large variant stores image("4"); the small variant, whose denotation is `KeyError`, is then served it:
+`Faithful` fails for a family containing both variants, and so does the property (known finding F10) -/
+theorem f10_in_model :
+    vden (variant [.str "0", .str "1"]) (denCfgOf (envKey (.str "4")) world0) = .error .keyError ∧
+    valueOf ((variant [.str "0", .str "1"]).call (envKey (.str "4"))
+      (worldOf ((variant [.str "0", .str "1", .str "4"]).call (envKey (.str "4")) world0 100)) 100)
+      = some (.app "image" [.str "4"] [] []) := ⟨rfl, rfl⟩
 
 end CM.C04
